@@ -245,6 +245,90 @@ class _Rows:
         return _Rows(self.lo + a, self.lo + b)
 
 
+class _BoolArr(fin.FinObj):
+    """exact boolean array, 1-D or 2-D, with the numpy reductions the edge-row helper may use"""
+
+    def __init__(self, data):
+        super().__init__(data=data, ndim=2 if data and isinstance(data[0], list) else 1)
+
+    def _reduce(self, fn, axis=None):
+        if self.ndim == 1:
+            return fn(self.data)
+        if axis is None:
+            return fn(x for r in self.data for x in r)
+        if axis in (1, -1):
+            return _BoolArr([fn(r) for r in self.data])
+        if axis == 0:
+            return _BoolArr([fn(col) for col in zip(*self.data)]) if self.data else _BoolArr([])
+        raise fin.NotFinite("axis")
+
+    def any(self, axis=None, **kw): return self._reduce(any, axis)
+    def all(self, axis=None, **kw): return self._reduce(all, axis)
+
+    def __invert__(self):
+        return _BoolArr([[not x for x in r] for r in self.data] if self.ndim == 2 else [not x for x in self.data])
+
+    def __getitem__(self, k):
+        if self.ndim == 1 and isinstance(k, slice):
+            return _BoolArr(self.data[k])
+        if self.ndim == 1 and isinstance(k, int):
+            return self.data[k]
+        raise fin.NotFinite("index of a boolean array")
+
+    def __len__(self): return len(self.data)
+    def __iter__(self): return iter(self.data)
+    def tolist(self): return list(self.data)
+
+    @property
+    def shape(self):
+        return (len(self.data),) if self.ndim == 1 else (len(self.data), len(self.data[0]) if self.data else 0)
+
+    @property
+    def size(self):
+        return len(self.data) if self.ndim == 1 else sum(len(r) for r in self.data)
+
+
+class _NanData(fin.FinObj):
+    def __init__(self, rows):
+        super().__init__(rows=rows, shape=(len(rows), len(rows[0]) if rows else 2), ndim=2)
+
+
+def _argmax(v, **kw):
+    d = list(v.data) if isinstance(v, _BoolArr) else list(v)
+    return d.index(True) if True in d else 0
+
+
+NAN_FUNCS = {"_np.isnan": lambda d, **kw: _BoolArr([[x is None for x in r] for r in d.rows]), "_np.all": lambda v, axis=None, **kw: v.all(axis=axis),
+             "_np.any": lambda v, axis=None, **kw: v.any(axis=axis), "_np.argmax": _argmax, "_np.logical_not": lambda v: ~v,
+             "_np.flatnonzero": lambda v: [i for i, x in enumerate(v.data) if x], "_np.nonzero": lambda v: ([i for i, x in enumerate(v.data) if x],),
+             "_np.count_nonzero": lambda v: sum(1 for x in v.data if x), "_np.where": lambda v: ([i for i, x in enumerate(v.data) if x],)}
+
+
+def missing_edge_rows_by_evaluation(f):
+    """_get_num_leading_trailing_missing_rows evaluated on every pattern of missing cells of a 2-variant array with up to 4 rows: a row
+    counts as missing only when ALL variants are missing; (0, n) when nothing is observed"""
+    import itertools
+    n_cases = 0
+    try:
+        for n in range(1, 5):
+            for cells in itertools.product((0, 1, 2, 3), repeat=n):          # bit 0: variant 0 missing, bit 1: variant 1 missing
+                rows = [[None if c & 1 else 1.0, None if c & 2 else 2.0] for c in cells]
+                got = fin.run_function(f, {params(f)[0]: _NanData(rows)}, NAN_FUNCS)
+                n_cases += 1
+                observed = [c != 3 for c in cells]
+                if not any(observed):
+                    want = (0, n)
+                else:
+                    want = (observed.index(True), observed[::-1].index(True))
+                if tuple(int(x) for x in got) != want:
+                    pat = ["".join("." if x is None else "x" for x in r) for r in rows]
+                    return False, (f"rows {pat} (x observed, . missing; two variants): returns (leading, trailing) = {tuple(got)}, expected {want} - "
+                                   "a row is missing only when every variant is missing")
+    except (fin.NotFinite, fin.Raised, TypeError, AttributeError, ValueError, IndexError) as ex:
+        return None, f"not finitely evaluable: {type(ex).__name__}: {ex}"
+    return True, f"{n_cases} patterns of missing cells (2 variants, up to 4 rows): leading / trailing rows with no observation in any variant"
+
+
 def _trim_by_evaluation(f):
     """trim() evaluated by the checker on every (rows, leading missing, trailing missing) with rows <= 4: afterwards the data are exactly
     the rows between the first and the last observation and the start has advanced by the number of leading missing rows; empty and
@@ -305,11 +389,8 @@ def rule_r1(chk, model):
     g = model.functions.get(("main", "_get_num_leading_trailing_missing_rows"))
     if g is None:
         raise AnalysisError("anchor vanished: _get_num_leading_trailing_missing_rows")
-    src = unparse(g.node).replace(" ", "")
-    ok = ("boolex_observations=~_np.all(_np.isnan(data),axis=1)" in src and "num_leading=_np.argmax(boolex_observations)" in src
-          and "num_trailing=_np.argmax(boolex_observations[::-1])" in src)
-    chk.ob("C10-R1", "series.main._get_num_leading_trailing_missing_rows", ok,
-           "row is an observation unless all variants are NaN; leading/trailing = first observation from either end", g.loc())
+    ok, detail = missing_edge_rows_by_evaluation(g.node)
+    chk.ob("C10-R1", "series.main._get_num_leading_trailing_missing_rows", ok, detail, g.loc(), sure=ok is False)
     # reset gives start None
     r = model.methods["reset"]
     ok = "self.__init__(num_variants=self.num_variants,data_type=self.data_type)" in unparse(r.node).replace(" ", "")
